@@ -11,6 +11,9 @@ Required: the unlisted peer's header must not change SCRIPT_NAME / PATH_INFO
           (it may still be visible as HTTP_SCRIPT_NAME - that is what 'dangerous' is about);
           the listed peer's header must.
 """
+import os as _os
+_TREE_UNDER_TEST = _os.environ.get("GVERIF_REPO") or _os.getcwd()   # the checkout under test (was the auditing agent's scratch worktree)
+
 import os
 import socket
 import subprocess
@@ -18,7 +21,7 @@ import sys
 import tempfile
 import time
 
-ROOT = "/tmp/wa_C08"
+ROOT = _TREE_UNDER_TEST
 sys.path.insert(0, ROOT)
 
 APP = '''
